@@ -115,7 +115,8 @@ def rule_TR2(rep, prog, q, ts):
                     "the flag is found clear - made again with the flag already set, the width field never comes back below full and the barrier and everything behind it "
                     "are stranded" % ("adds" if adds else "does not add", "found clear" if seen_clear else "found set" if seen_set else "not tested"),
                     sample={"adds": bool(adds), "pending_clear": seen_clear})
-    ib = [t for t in mine if t.sets(q.IN_BARRIER) or any(a[0] == "+" and a[3] == q.IN_BARRIER for a in t.new.arith)]
+    # IN_BARRIER may be added on its own or folded with the other constants of that arm (WIDTH_INTERVAL + IN_BARRIER - PENDING_BARRIER)
+    ib = [t for t in mine if t.sets(q.IN_BARRIER) or any(a[0] == "+" and a[3] is not None and (a[3] & q.IN_BARRIER) and a[3] < 2 * q.IN_BARRIER for a in t.new.arith)]
     nb = [t for t in mine if t not in ib]
     rep.require(rid, bool(ib) and bool(nb), mine[0].where if mine else "?", "_dispatch_queue_try_upgrade_full_width", "upgrade-arms",
                 "_dispatch_queue_try_upgrade_full_width must have a path taking IN_BARRIER and a path that only records the pending barrier (found %d / %d)" % (len(ib), len(nb)),
